@@ -786,7 +786,7 @@ def gaStep (acc : Except Err (Option Axis)) (ax : Axis) : Except Err (Option Axi
   let c ← acc
   let common := match c with
     | none => ax
-    | some c => if c.size == 1 && ax.size > 1 then ax else c
+    | some c => if c.size == 1 && ax.size != 1 then ax else c
   if !(ax.size == 1 || ax.labels == common.labels) then .error .value else pure (some common)
 
 theorem getAxesAligned_eq (arrays : List (List Axis)) :
